@@ -191,16 +191,16 @@ Lemma class_ref_other : forall incl gm env n c n', n' <> n ->
   resolve_items incl gm ((n, c) :: env) [IRef n'] = resolve_items incl gm env [IRef n'].
 Proof. intros incl gm env n c n' H. simpl. destruct (N.eqb_spec n' n); [contradiction | reflexivity]. Qed.
 
-Lemma class_definition_then_reference : forall incl gm delp eskip st n items c,
+Lemma class_definition_then_reference : forall incl gm delp eskip refc mixs st n items c,
   resolve_items incl gm (es_classes st) items = Some c ->
   exists st',
-    elab_top incl gm delp eskip st (TClassDef n items) = Some st'
+    elab_top incl gm delp eskip refc mixs st (TClassDef n items) = Some st'
     /\ elab_lstmt incl gm delp eskip st (LClassDef n items) = Some st'
     /\ resolve_items incl gm (es_classes st') [IRef n] = Some c
     /\ forall n', n' <> n ->
          resolve_items incl gm (es_classes st') [IRef n'] = resolve_items incl gm (es_classes st) [IRef n'].
 Proof.
-  intros incl gm delp eskip st n items c H. exists (set_classes st ((n, c) :: es_classes st)).
+  intros incl gm delp eskip refc mixs st n items c H. exists (set_classes st ((n, c) :: es_classes st)).
   split; [simpl; rewrite H; reflexivity|]. split; [simpl; rewrite H; reflexivity|].
   split; [apply class_ref_latest | intros n' Hn; apply class_ref_other; exact Hn].
 Qed.
